@@ -13,7 +13,7 @@ Plain(kind, l) == Task(kind, kind # "service", IF kind = "service" THEN <<>> ELS
 Job(id, tasks) == [id |-> id, hasValue |-> FALSE, value |-> 0, tasks |-> tasks]
 Shift(earliest, hasEnd, endLatest) == [earliest |-> earliest, hasLatest |-> FALSE, latest |-> 0, hasEnd |-> hasEnd, endLatest |-> endLatest,
                                        hasBreaks |-> FALSE, breaks |-> <<>>, hasReloads |-> FALSE, reloads |-> <<>>, loc |-> Idx(0)]
-Vehicle(typeId, ids, profile, shifts) == [typeId |-> typeId, ids |-> ids, profile |-> profile, costDist |-> 1, costTime |-> 1, shifts |-> shifts]
+Vehicle(typeId, ids, profile, shifts) == [typeId |-> typeId, ids |-> ids, profile |-> profile, costDist |-> 1, costTime |-> 1, shifts |-> shifts, cap |-> <<10>>]
 Base == [jobs |-> << Job("job1", <<Plain("delivery", 1)>>), Job("job2", <<Plain("pickup", 2)>>) >>,
          vehicles |-> << Vehicle("vt1", <<"v1", "v2">>, "car", <<Shift(8, TRUE, 18)>>) >>,
          profiles |-> <<"car">>, hasResources |-> FALSE, resources |-> <<>>,
@@ -73,11 +73,12 @@ RelJobs == << Job("job1", <<Plain("delivery", 1)>>), Job("job2", <<Plain("pickup
               Job("job5", << [Plain("service", 1) EXCEPT !.places = <<Place(Idx(1), "pos", FALSE, <<>>), Place(Idx(2), "pos", FALSE, <<>>)>>] >>) >>
 RelVehicles == << Vehicle("vt1", <<"v1">>, "car", <<Shift(8, TRUE, 18)>>),
                   Vehicle("vt2", <<"v2">>, "car", << [Shift(8, FALSE, 0) EXCEPT !.hasBreaks = TRUE, !.breaks = <<Brk("opt-tw", 10, 12, 1)>>],
-                                                     [Shift(30, TRUE, 40) EXCEPT !.hasReloads = TRUE, !.reloads = <<>>, !.hasBreaks = TRUE] >>) >>
+                                                     [Shift(30, TRUE, 40) EXCEPT !.hasReloads = TRUE, !.reloads = <<>>, !.hasBreaks = TRUE] >>),
+                  Vehicle("vt3", <<"v3">>, "car", << [Shift(8, TRUE, 18) EXCEPT !.hasBreaks = TRUE, !.breaks = <<Brk("req-exact", 10, 11, 1)>>] >>) >>
 Rel(type, vehicle, sh, jobs) == [type |-> type, vehicle |-> vehicle, hasShift |-> sh[1], shift |-> sh[2], jobs |-> jobs]
 RelJobLists == { <<"job1">>, <<"job1", "job2">>, <<>>, <<"departure">>, <<"departure", "job1", "arrival">>, <<"job1", "break">>, <<"reload", "job2">>,
                  <<"jobX">>, <<"job3">>, <<"job3", "job3">>, <<"job1", "job1">>, <<"job4">>, <<"job5", "job1">>, <<"break", "reload">> }
-RelSingles == { Rel(t, v, sh, js) : t \in {"any", "sequence", "strict"}, v \in {"v1", "v2", "vX"},
+RelSingles == { Rel(t, v, sh, js) : t \in {"any", "sequence", "strict"}, v \in {"v1", "v2", "v3", "vX"},
                                     sh \in { <<FALSE, 0>>, <<TRUE, 0>>, <<TRUE, 1>>, <<TRUE, 2>> }, js \in RelJobLists }
 RelPairsOf == { Rel(t, v, <<FALSE, 0>>, js) : t \in {"any", "strict"}, v \in {"v1", "v2"}, js \in { <<"job1">>, <<"job2">>, <<"job1", "job2">>, <<"departure", "job1">> } }
 FamRelations == { [Base EXCEPT !.jobs = RelJobs, !.vehicles = RelVehicles, !.hasRelations = TRUE, !.relations = rs] :
@@ -101,7 +102,8 @@ FamRouting == { [Base EXCEPT !.jobs[1].tasks[1].places[1].loc = a, !.jobs[2].tas
                 a, b, c \in LocPalette, m \in { <<>>, << [size |-> 2] >>, << [size |-> 3] >>, << [size |-> 4] >>, << [size |-> 8] >> } }
 \* ---- degenerate collections
 FamEmpty == { [Base EXCEPT !.jobs = <<>>], [Base EXCEPT !.vehicles = <<>>], [Base EXCEPT !.jobs = <<>>, !.vehicles = <<>>],
-              [Base EXCEPT !.vehicles[1].ids = <<>>] }
+              [Base EXCEPT !.vehicles[1].ids = <<>>], [Base EXCEPT !.vehicles[1].cap = <<>>], [Base EXCEPT !.vehicles[1].cap = <<10, 5>>],
+              [Base EXCEPT !.vehicles[1].cap = <<0>>], [Base EXCEPT !.vehicles[1].cap = <<0 - 1>>] }
 Families == << <<"windows", FamWindows>>, <<"demand", FamDemand>>, <<"ids", FamIds>>, <<"duration", FamDuration>>, <<"vehicles", FamVehicles>>,
                <<"shifts", FamShifts>>, <<"breaks", FamBreaks>>, <<"reloads", FamReloads>>, <<"relations", FamRelations>>,
                <<"objectives", FamObjectives>>, <<"routing", FamRouting>>, <<"empty", FamEmpty>> >>
